@@ -222,10 +222,10 @@ func run(c *hl.Ctx) error {
 		return nil
 	}
 	r := c.Rand()
-	for i := c.Pick(2500, 150000); i > 0; i-- {
+	for i := c.Pick(2500, 40000); i > 0; i-- {
 		runUnit(c, genText(r, c))
 	}
-	for i := c.Pick(60, 3000); i > 0; i-- {
+	for i := c.Pick(60, 600); i > 0; i-- {
 		c.Count("e2e:dagre")
 		runE2E(c, genText(r, c))
 	}
